@@ -113,6 +113,73 @@ def gen_case(rnd, kind, cid, maxops, stats, allow_ttl0=True, probe_every=True):
     names = list(weights)
     ws = [weights[n] for n in names]
     nops = rnd.randrange(3, maxops + 1)
+
+    def emit(l, t):
+        # a scripted call: probe before it when the clock moved, probe after it
+        if probe_every and lines and not lines[-1].startswith("probe %d" % t) and not lines[-1].startswith("case"):
+            lines.append("probe %d" % t)
+        lines.append(l)
+        lines.append("probe %d" % t)
+        stats["ops"]["scripted"] = stats["ops"].get("scripted", 0) + 1
+
+    # ---- scripted preludes aimed at case splits random walks rarely reach ----
+    if kind == "utlru" and rnd.random() < 0.45:
+        # deadlines out of write order: long TTL, a few writes, update_ttl to a much shorter one, then an
+        # UPDATE of an existing entry (or a fresh write), then the clock crosses only the short deadline
+        t1, t2 = rnd.choice([(50, 1), (50, 5), (100, 10), (10, 1), (5, 2)])
+        lines[0] = lines[0].replace(" %d %d %d %d %d " % (cap, ttl, tick, rnum, rk), " %d %d %d %d %d " % (cap, t1, tick, rnum, rk), 1)
+        cur_ttl[0] = t1
+        ks = universe[:max(2, min(cap, 4))]
+        for j, k in enumerate(ks):
+            emit("op %d insert 0 %d %d 3" % (now, k, val()), now)
+            marks.append(now + t1 * MS)
+            now += rnd.choice([0, 1, MS])
+        emit("op %d update_ttl %d" % (now, t2), now)
+        cur_ttl[0] = t2
+        now += rnd.choice([0, 1, MS // 2])
+        victim = rnd.choice(ks[1:] + [universe[-1]])      # an existing key that is not the oldest, or a new key
+        emit("op %d insert 0 %d %d %d" % (now, victim, val(), rnd.choice([3, 3, 2, 1])), now)
+        marks.append(now + t2 * MS)
+        now = now + t2 * MS + rnd.choice([-1, 0, 0, 1, MS])
+        fin = rnd.choice(["clean", "insert", "find", "find", "clean"])
+        if fin == "clean":
+            emit("op %d clean" % now, now)
+        elif fin == "insert":
+            emit("op %d insert 0 %d %d 3" % (now, universe[-2], val()), now)
+        else:
+            emit("op %d find %d %d" % (now, victim, rnd.choice([0, 1])), now)
+        nops = max(3, nops // 2)
+    if kind == "tlru" and rnd.random() < 0.45:
+        # an update that lands on exactly the same deadline (same instant + same TTL, or later with a
+        # correspondingly shorter TTL), or that moves the deadline earlier; then fill up and evict
+        ttls = [1, 2, 5, 10, 50]
+        a = rnd.choice(ttls[1:])
+        ks = universe[:max(2, min(cap, 4))]
+        emit("op %d insert %d %d %d 3" % (now, a, ks[0], val()), now)
+        d0 = now + a * MS
+        marks.append(d0)
+        for k in ks[1:]:
+            now += rnd.choice([0, 1, 1000])
+            emit("op %d insert %d %d %d 3" % (now, rnd.choice(ttls), k, val()), now)
+        mode = rnd.choice(["same", "same", "shorter", "earlier", "range_dup"])
+        if mode == "same":
+            b = rnd.choice([x for x in ttls if x <= a])
+            tgt = d0 - b * MS
+            if tgt >= now:
+                now = tgt
+            emit("op %d insert %d %d %d %d" % (now, b, ks[0], val(), rnd.choice([3, 2])), now)
+        elif mode == "shorter":
+            b = rnd.choice([x for x in ttls if x <= a])
+            emit("op %d insert %d %d %d 3" % (now, b, ks[0], val()), now)
+            marks.append(now + b * MS)
+        elif mode == "earlier":
+            emit("op %d insert 0 %d %d 3" % (now, ks[0], val()), now)
+        else:
+            emit("op %d insert_range 3 2 %d %d %d %d %d %d" % (now, a, ks[-1], val(), a, ks[-1], val()), now)
+        for k in universe[len(ks):len(ks) + 2]:
+            now += rnd.choice([0, 1])
+            emit("op %d insert %d %d %d 3" % (now, rnd.choice([10, 50]), k, val()), now)
+        nops = max(3, nops // 2)
     for _ in range(nops):
         # clock move, aimed at tracked instants
         r = rnd.random()
